@@ -446,6 +446,7 @@ type cmpEnv struct {
 	err   string
 	inl   *inliner // helpers returning the comparison (compareKeyVal(asc, o1, o2)) are followed with arguments substituted
 	depth int
+	bind  map[types.Object]ast.Expr // parameters of the helper holding the comparator -> the caller's arguments
 }
 
 // runInt interprets a helper body that returns an int.
@@ -579,8 +580,39 @@ func (e *cmpEnv) evalBool(x ast.Expr) bool {
 		if v.Name == "false" {
 			return false
 		}
+		if a, ok := e.bind[e.info.ObjectOf(v)]; ok && e.depth < 4 {
+			e.depth++
+			defer func() { e.depth-- }()
+			return e.evalBool(a)
+		}
 		if b, ok := e.bools[v.Name]; ok {
 			return b
+		}
+	case *ast.CallExpr:
+		// a function-typed parameter bound to a literal at the call being followed (the tie-breaker
+		// handed to a shared sorting helper): the literal's body with the arguments in place
+		if id, ok := ast.Unparen(v.Fun).(*ast.Ident); ok && e.depth < 4 {
+			if lit, ok := ast.Unparen(e.bind[e.info.ObjectOf(id)]).(*ast.FuncLit); ok && lit != nil {
+				repl := map[types.Object]ast.Expr{}
+				i := 0
+				for _, f := range lit.Type.Params.List {
+					for _, n := range f.Names {
+						if i < len(v.Args) {
+							repl[e.info.Defs[n]] = v.Args[i]
+						}
+						i++
+					}
+				}
+				if body, ok := paths.Subst(e.info, lit.Body, repl).(*ast.BlockStmt); ok && i == len(v.Args) {
+					e.depth++
+					res, ret := e.run(body.List)
+					e.depth--
+					if !ret && e.err == "" {
+						e.err = "the function bound to " + id.Name + " falls off its end"
+					}
+					return res
+				}
+			}
 		}
 	case *ast.UnaryExpr:
 		if v.Op == token.NOT {
@@ -686,14 +718,87 @@ func c13Sort(p *core.Program, r *core.Report, t *types.Named) {
 		info := fi.Pkg.TypesInfo
 		pos := p.Pos(fi.Decl.Pos())
 		c := tn + "." + name
-		// the comparator closure
+		// the comparator closure: a literal func(a, b <element>) bool over the sort's own element
+		// records (not over ints), in the method itself or in the unexported helper the method
+		// hands the work to (whose parameters are then bound to the method's arguments)
 		var lit *ast.FuncLit
+		bind := map[types.Object]ast.Expr{}
+		isCmp := func(fl *ast.FuncLit) bool {
+			if fl.Type.Results == nil || len(fl.Type.Results.List) != 1 || types.ExprString(fl.Type.Results.List[0].Type) != "bool" {
+				return false
+			}
+			n := 0
+			for _, f := range fl.Type.Params.List {
+				pt := info.TypeOf(f.Type)
+				if pp, ok := pt.(*types.Pointer); ok {
+					pt = pp.Elem()
+				}
+				if _, isStruct := pt.Underlying().(*types.Struct); !isStruct {
+					return false
+				}
+				n += len(f.Names)
+			}
+			return n == 2
+		}
 		ast.Inspect(fi.Decl.Body, func(n ast.Node) bool {
-			if fl, ok := n.(*ast.FuncLit); ok && lit == nil && fl.Type.Results != nil && len(fl.Type.Results.List) == 1 && types.ExprString(fl.Type.Results.List[0].Type) == "bool" {
+			if fl, ok := n.(*ast.FuncLit); ok && lit == nil && isCmp(fl) {
 				lit = fl
 			}
 			return true
 		})
+		if lit == nil {
+			ast.Inspect(fi.Decl.Body, func(n ast.Node) bool {
+				call, ok := n.(*ast.CallExpr)
+				if !ok || lit != nil {
+					return true
+				}
+				var id *ast.Ident
+				switch f := ast.Unparen(call.Fun).(type) {
+				case *ast.Ident:
+					id = f
+				case *ast.SelectorExpr:
+					id = f.Sel
+				}
+				if id == nil {
+					return true
+				}
+				fn, _ := info.Uses[id].(*types.Func)
+				if fn == nil || fn.Exported() || fn.Pkg() != fi.Obj.Pkg() {
+					return true
+				}
+				hf := p.FuncOf(fn)
+				if hf == nil || hf.Decl.Body == nil {
+					return true
+				}
+				ast.Inspect(hf.Decl.Body, func(m ast.Node) bool {
+					if fl, ok := m.(*ast.FuncLit); ok && lit == nil && isCmp(fl) {
+						lit = fl
+					}
+					return true
+				})
+				if lit != nil {
+					i := 0
+					for _, f := range hf.Decl.Type.Params.List {
+						for _, nm := range f.Names {
+							if i < len(call.Args) {
+								bind[info.Defs[nm]] = call.Args[i]
+							}
+							i++
+						}
+					}
+				}
+				return true
+			})
+		}
+		if lit == nil {
+			// older spelling: the first boolean literal of the method
+			ast.Inspect(fi.Decl.Body, func(n ast.Node) bool {
+				if fl, ok := n.(*ast.FuncLit); ok && lit == nil && fl.Type.Results != nil && len(fl.Type.Results.List) == 1 && types.ExprString(fl.Type.Results.List[0].Type) == "bool" {
+					lit = fl
+				}
+				return true
+			})
+		}
 		if lit == nil || len(lit.Type.Params.List) == 0 {
 			r.Undec("C13.sort", c, pos, "comparator closure not found")
 			continue
@@ -720,7 +825,7 @@ func c13Sort(p *core.Program, r *core.Report, t *types.Named) {
 				}
 				for _, C := range cs {
 					env := &cmpEnv{info: info, P: P, C: C, bools: map[string]bool{"asc": asc, "childAsc": true}, ints: map[types.Object]int{}, o1: pn[0], o2: pn[1],
-						inl: newInliner(p, fi, func(fn *types.Func) bool { return fn.Name() == "CompareChild" })}
+						inl: newInliner(p, fi, func(fn *types.Func) bool { return fn.Name() == "CompareChild" }), bind: bind}
 					got, ret := env.run(lit.Body.List)
 					evals++
 					if env.err != "" || !ret {
@@ -1092,6 +1197,19 @@ func c13Linked(p *core.Program, r *core.Report, t *types.Named, rule string) {
 			}
 		}
 	}
+	// the element counter is the list's only integer field, whatever it is called
+	sizeField := "size"
+	if st, ok := t.Underlying().(*types.Struct); ok {
+		var ints []string
+		for i := 0; i < st.NumFields(); i++ {
+			if b, ok := st.Field(i).Type().Underlying().(*types.Basic); ok && b.Info()&types.IsInteger != 0 {
+				ints = append(ints, st.Field(i).Name())
+			}
+		}
+		if len(ints) == 1 {
+			sizeField = ints[0]
+		}
+	}
 	checkedFns := map[*types.Func]bool{}
 	for _, fi := range cands {
 		if fi.Decl.Body == nil {
@@ -1101,7 +1219,13 @@ func c13Linked(p *core.Program, r *core.Report, t *types.Named, rule string) {
 		if on, ok := ownerName[fi]; ok {
 			rn = on
 		}
-		norm := func(e ast.Expr) string { return strings.ReplaceAll(stripSpaces(types.ExprString(e)), rn+".", "") }
+		norm := func(e ast.Expr) string {
+			s := strings.ReplaceAll(stripSpaces(types.ExprString(e)), rn+".", "")
+			if s == sizeField {
+				return "size"
+			}
+			return s
+		}
 		touches := false
 		ps, over := simplePaths(fi, func(n ast.Node) []paths.Event {
 			var out []paths.Event
